@@ -10,11 +10,12 @@ def run(tier, seed):
     out = Outcome("C05", tier, seed)
     out.add_mc("MC_Abs", vlib.tlc_mc("MC_Abs", workers=8))
     env_runs(out, "abs", ENVS, ["--tier", tier, "--seed", str(seed)])
-    try:
-        from props import spelling
-        spelling.run(out, tier, seed)
-    except ImportError:
-        pass
+    # second sentence of C05: every other method interprets its path arguments through the same resolution - histories in
+    # which every argument is respelled (relative to the cwd, unclean, ~, ${HOME}, file://) are judged by the reference,
+    # which resolves arguments with PathLex!Abs: a method that skips the resolution is rejected
+    from props import vfsrun
+    n, ln = (200, 200) if tier == "thorough" else (16, 120)
+    vfsrun.hist(out, "spell", "rand", ["--n", str(n), "--len", str(ln), "--seed", str(seed + 5)], recs_per_chunk=13 if tier == "thorough" else 2)
     out.finish(dict(rule="every string up to length %d over {/ . ~ $ { } : a e-acute} + scheme-prefixed forms + seeded random strings with 2/3/4-byte characters, x cwds {/, /a, /a/b, /e-acute} "
                          "x 4 environments (HOME plain / multi-byte / unset, variable a set / unset; one process each), on Memfs (fresh and populated: no IO) and on Stdfs (process cwd inside a sandbox); "
                          "non-trivial = the argument is not already a clean absolute path" % (6 if tier == "thorough" else 4)))
